@@ -65,6 +65,14 @@ func (v *FnVC) callCommon(c *ssa.CallCommon, val ssa.Value, pos token.Pos, how s
 			key, short = ct, ct[strings.LastIndex(ct, ".")+1:]
 			args = append(args, fv)
 			pnames = append(pnames, "self")
+		} else if pn := paramSource(c.Value); pn != "" {
+			// a function-typed parameter of the enclosing function: contract "<function>#<parameter>"
+			ek, es := funcKey(v.fn)
+			if _, ok := v.w.cs.Funcs[ek+"#"+pn]; ok {
+				key, short = ek+"#"+pn, es+"#"+pn
+				args = append(args, fv)
+				pnames = append(pnames, "self")
+			}
 		}
 	}
 	for _, a := range c.Args {
@@ -135,6 +143,29 @@ func (v *FnVC) callCommon(c *ssa.CallCommon, val ssa.Value, pos token.Pos, how s
 			cenv.vars[n] = args[i]
 		}
 	}
+	if mc, ok := c.Value.(*ssa.MakeClosure); ok {
+		// direct call of a closure (deferred functions): its free variables are bound here
+		if cf, ok := mc.Fn.(*ssa.Function); ok {
+			for i, fv := range cf.FreeVars {
+				if i >= len(mc.Bindings) {
+					break
+				}
+				if _, imm := immutableCapture(cf, i); imm {
+					if p, ok := v.places[mc.Bindings[i]]; ok {
+						cenv.vars[fv.Name()] = Term{v.load(p, pos), p.Typ}
+						continue
+					}
+					if b, ok := v.vals[mc.Bindings[i]]; ok {
+						if pt, ok := b.T.Underlying().(*types.Pointer); ok {
+							cenv.vars[fv.Name()] = Term{v.load(&Place{Kind: "cell", Base: b, Typ: pt.Elem()}, pos), pt.Elem()}
+							continue
+						}
+					}
+				}
+				cenv.vars[fv.Name()] = v.val(mc.Bindings[i])
+			}
+		}
+	}
 	k := 0
 	for _, cl := range fc.Clauses {
 		if cl.Kind != "requires" || cl.Behav != "" {
@@ -200,6 +231,25 @@ func (v *FnVC) callCommon(c *ssa.CallCommon, val ssa.Value, pos token.Pos, how s
 	}
 	v.ghostAtCall(site, "after", pnames, args)
 	return results
+}
+
+// paramSource: the name of the parameter (of the enclosing function) a value was read from.
+func paramSource(x ssa.Value) string {
+	switch y := x.(type) {
+	case *ssa.Parameter:
+		return y.Name()
+	case *ssa.UnOp:
+		if a, ok := y.X.(*ssa.Alloc); ok && a.Comment != "" {
+			for _, r := range *a.Referrers() {
+				if st, ok := r.(*ssa.Store); ok {
+					if p, ok := st.Val.(*ssa.Parameter); ok && p.Name() == a.Comment {
+						return p.Name()
+					}
+				}
+			}
+		}
+	}
+	return ""
 }
 
 func recvName(fn *ssa.Function) string {
@@ -520,6 +570,9 @@ func (v *FnVC) builtin(b *ssa.Builtin, c *ssa.CallCommon, val ssa.Value, pos tok
 		v.set(dk, v.heapSort(dk), fmt.Sprintf("(store %s %s (store (select %s %s) %s false))", v.get(dk), m.S, v.get(dk), m.S, k.S))
 		return Term{}
 	case "recover":
+		if g, ok := v.w.cs.Ghosts["panicking"]; ok {
+			return Term{v.get(v.w.ghostKey(g)), rt}
+		}
 		n := v.fresh("recovered")
 		v.declare(n, "Int")
 		return Term{n, rt}
